@@ -108,6 +108,16 @@ func RunRedefine(s Scenario) (o Outcome) {
 
 	// differential: the original function, original arguments plus the new values
 	// (options in the order the redefined function passes them: named, then type-only)
+	if !PureOrder {
+		return
+	}
+	WithPureChooser(func() { r.DirectKey = directCall(s, r) })
+	return
+}
+
+// directCall: the original function with the original arguments plus the new values,
+// under the same global order policy, outside the explored choice sequence.
+func directCall(s Scenario, r *RedefObs) string {
 	w2 := NewWorld()
 	t2, args2, _ := buildArgs(s, w2)
 	args2 = append(args2, filterArgs(s)...)
@@ -128,8 +138,7 @@ func RunRedefine(s Scenario) (o Outcome) {
 			results2 = append(results2, provOfIface(res2.Out(i)))
 		}
 	}
-	r.DirectKey = fmt.Sprintf("%s|%v|%s", errKey(w2, res2.Err()), results2, invString(w2.Log.Inv))
-	return
+	return fmt.Sprintf("%s|%v|%s", errKey(w2, res2.Err()), results2, invString(w2.Log.Inv))
 }
 
 func errKey(w *World, err error) string {
